@@ -737,6 +737,14 @@ class Runner:
         a, b = (p1, p0) if orient else (p0, p1)
         self.view = None
         self.evaluated.append("bdr-terminates")
+        if (piece + l + k) % 2 == 0:
+            # a caller may ask for the end points BEFORE the refinement creates them (read-only query; the answer may be None):
+            # whatever the lookup remembers must not survive the refinement
+            for pt in (p0, p1):
+                try:
+                    self.mesh.vertex_from_coords(as_input(pt, kind))
+                except Exception:      # noqa  (the clause below reports look-ups that raise)
+                    pass
         try:
             with guard(GUARD_BDR):
                 elem = self.mesh.refine_msh_bdr(as_input(a, kind), as_input(b, kind))
@@ -827,10 +835,36 @@ def run_ops(domain, ops, check_last=True):
     return r, fails
 
 
+def run_script(script):
+    """Several meshes alive at once.  script = [["build", id, domain] | ["op", id, op], ...]; every operation is checked on its own
+    mesh, every mesh once more at the end.  -> (runners, {id: [(clause, message)]})"""
+    runners, fails = {}, {}
+    for ev in script:
+        if ev[0] == "build":
+            runners[ev[1]] = Runner(ev[2])
+            continue
+        r = runners[ev[1]]
+        if r.dead:
+            continue
+        fails.setdefault(ev[1], []).extend(r.apply(ev[2], check=True))
+    for rid, r in runners.items():
+        if not r.dead:
+            r.evaluated = []
+            fails.setdefault(rid, []).extend(r.check_state())
+    return runners, fails
+
+
 def replay(scenario, clause, attempts=1):
     """-> (violated, message).  Violated iff `clause` fails after/while the LAST op of the scenario
     (or while executing an earlier one).  `attempts` > 1 only for clauses whose violation depends on
     the iteration order of a set of objects."""
+    if scenario.get("script"):
+        for _ in range(max(1, attempts)):
+            _, fb = run_script(scenario["script"])
+            for c, m in fb.get(scenario["main"], []):
+                if c == clause:
+                    return True, m
+        return False, None
     for _ in range(max(1, attempts)):
         r, fails = run_ops(scenario["domain"], scenario["ops"])
         for c, m in fails:
@@ -843,6 +877,8 @@ def describe(scenario):
     """Human-readable list of the raw repository calls of a scenario."""
     d = scenario["domain"]
     out = ["mesh = {}()".format(CTOR_NAME[d])]
+    if scenario.get("script"):
+        out.append("# several meshes alive at once: the full interleaved schedule is scenario['script'] (this is mesh {!r})".format(scenario["main"]))
     unit = "*pi" if d == "pi" else ""
     for op in scenario["ops"]:
         if op[0] == "refine":
@@ -1088,6 +1124,62 @@ def _random_history(args):
     return domain, hashes, agg
 
 
+def _interleaved_history(args):
+    """three domain meshes alive at once (two of them of the same polygon), constructed at different moments, operations alternate"""
+    seed, steps = args
+    rng = random.Random("C16-interleaved-{}".format(seed))
+    agg = Agg()
+    doms = [rng.choice(DOMAINS), rng.choice(DOMAINS)]
+    doms.append(doms[0])                              # a second mesh of the same polygon
+    pattern = seed % 3
+    script, runners = [], {}
+
+    def build(rid):
+        script.append(["build", rid, doms[rid]])
+        runners[rid] = Runner(doms[rid])
+
+    def op(rid):
+        r = runners[rid]
+        if r.dead:
+            return
+        leaves = sorted(r.ref.leaves)
+        u = rng.random()
+        if u < 0.06 and r.ref.is_uniform() and len(leaves) <= 64:
+            o = ["uniform"]
+        elif u < 0.25:
+            npieces = len(pieces(r.domain))
+            l = rng.randrange(0, 4)
+            o = ["bdr", rng.randrange(npieces), l, rng.randrange(1 << l), rng.randrange(2), rng.choice(["tuple", "list", "array"])]
+        else:
+            cand = [c for c in leaves if c[0] < MAX_RANDOM_LEVEL]
+            o = ["refine"] + list(rng.choice(cand))
+        script.append(["op", rid, o])
+        fails = r.apply(o)
+        r.last_scenario = dict(r.last_scenario, script=[list(e) for e in script], main=rid)
+        agg.note(r, fails)
+        agg.count("interleaved", r.domain)
+    if pattern == 0:
+        build(0), build(1), build(2)
+    elif pattern == 1:
+        build(0), build(1)
+        op(1)
+        build(2)
+    else:
+        build(0)
+        op(0), op(0)
+        build(1), build(2)
+    for step in range(steps):
+        op(rng.randrange(3))
+    for rid, r in runners.items():
+        if not r.dead:
+            r.evaluated = []
+            fails = r.check_state()
+            r.last_scenario = dict(r.scenario(), script=[list(e) for e in script], main=rid)
+            agg.note(r, fails)
+    agg.samples["interleaved"] = [dict(part="interleaved", domains=doms, pattern=pattern, events=len(script))]
+    return agg
+
+
 # ------------------------------------------------------------------------------------------------
 # part (c): boundary targeting
 # ------------------------------------------------------------------------------------------------
@@ -1170,9 +1262,9 @@ def _confirm(code):
 # ------------------------------------------------------------------------------------------------
 TIERS = {
     "quick": dict(depth={"unit": 5, "pi": 5, "lshape": 4}, histories=12, steps=60, cap=3000,
-                  L=8, prefined=200, prefined_calls=6),
+                  L=8, prefined=200, prefined_calls=6, interleaved=12, interleaved_steps=24),
     "thorough": dict(depth={"unit": 6, "pi": 5, "lshape": 5}, histories=32, steps=200, cap=3000,
-                     L=10, prefined=600, prefined_calls=8),
+                     L=10, prefined=600, prefined_calls=8, interleaved=48, interleaved_steps=40),
 }
 
 
@@ -1220,8 +1312,10 @@ def run(chk, tier, seed, workers=None):
             for ch in _chunks(items, max(1, len(items) // 150)):
                 bdr_tasks.append((d, ch))
         pre_tasks = [(d, seed * 100003 + n, p["prefined_calls"], p["L"]) for n in range(p["prefined"]) for d in DOMAINS]
+        il_tasks = [(seed * 7919 + n, p.get("interleaved_steps", 24)) for n in range(p.get("interleaved", 12))]
         if pool is not None:   # long tasks first; the many small boundary tasks fill the tail
             async_rnd = pool.map_async(_random_history, rnd_tasks, chunksize=1)
+            async_il = pool.map_async(_interleaved_history, il_tasks, chunksize=1)
 
         bfs = part_bfs(pool_map, p["depth"], agg, nworkers)
         timing["bfs_and_random_s"] = round(time.time() - t0, 2)
@@ -1230,7 +1324,9 @@ def run(chk, tier, seed, workers=None):
             async_bdr = pool.map_async(_bdr_fresh, bdr_tasks, chunksize=1)
             async_pre = pool.map_async(_bdr_prefined, pre_tasks, chunksize=4)
             rnd_res, bdr_res, pre_res = async_rnd.get(), async_bdr.get(), async_pre.get()
+            il_res = async_il.get()
         else:
+            il_res = [_interleaved_history(t) for t in il_tasks]
             rnd_res = [_random_history(t) for t in rnd_tasks]
             bdr_res = [_bdr_fresh(t) for t in bdr_tasks]
             pre_res = [_bdr_prefined(t) for t in pre_tasks]
@@ -1248,6 +1344,14 @@ def run(chk, tier, seed, workers=None):
     for d, hashes, a in rnd_res:
         rnd_states[d] |= hashes
         agg.merge(a)
+    for a in il_res:
+        agg.merge(a)
+    chk.add_bounded("interleaved-meshes", sum(agg.ops.get(("interleaved", d), 0) for d in DOMAINS), len(il_tasks),
+                    bound="{} seeded schedules with three domain meshes alive at once (two of the same polygon; all constructed first / one "
+                          "constructed after the first operation of another / after two operations), {} alternating operations (refine, "
+                          "uniform_refine, refine_msh_bdr)".format(len(il_tasks), il_tasks[0][1] if il_tasks else 0),
+                    rule="evaluation = one real operation checked in lock-step with its own reference + invariant; every mesh once more at the end",
+                    samples=agg.samples.get("interleaved", [])[:2])
     segs = {d: set() for d in DOMAINS}
     for d, s, a in list(bdr_res) + list(pre_res):
         segs[d] |= s
